@@ -28,6 +28,7 @@ def run(ctx):
     for cfg in (["a", "c"] if ctx.quick else ["a", "b", "c", "d"]):
         ctx.mc("MC_PAdic", cfg="MC_PAdic_" + cfg, workers=8, require_actions=(("PNext",) if cfg == "a" else ()),
                universe=f"p-adic solver machine on all systems of MC_PAdic_{cfg}.cfg")
+    ctx.mc("MC_PGraph", cfg="MC_PGraph", workers=4, universe="all edges on 2 vertices with shifts -2..2 (canonical form of periodic-graph edges)")
     # 0b. the elimination machine: invariants and read-out theorems on ALL small matrices, for EVERY choice of pivot rows
     for cfg in (["z22", "z23", "z32", "f22", "f23"] if ctx.quick else
                 ["z22", "z23", "z32", "z33", "z24", "z42", "z33b", "z34", "z43", "f22", "f23", "f32", "f33", "f33b", "f34"]):
